@@ -206,7 +206,7 @@ int main(int argc, char **argv) {
             vg::EdgeList el = vg::graph_from_mask(n, (u + seed) % total_units);
             int dim = vg::cycle_space_dim(el);
             auto cyc = vg::all_simple_cycles(el);
-            uint64_t nw = vg::ipow(alpha.size(), el.m());
+            uint64_t nw = vg::num_weightings(alpha, el.m());
             std::vector<double> w;
             for (uint64_t s = start_sub; s < nw; ++s) {
                 vg::weighting(alpha, el.m(), s, w);
